@@ -1780,11 +1780,15 @@ class VM:
 
         def toString_fn(*args):
             # Join elements with comma
-            return ",".join(str(arr.get_index(i)) for i in range(arr.length))
+            return ",".join(to_string(arr.get_index(i)) for i in range(arr.length))
 
         def join_fn(*args):
-            separator = to_string(args[0]) if args else ","
-            return separator.join(str(arr.get_index(i)) for i in range(arr.length))
+            separator = (
+                to_string(args[0]) if args and args[0] is not UNDEFINED else ","
+            )
+            return separator.join(
+                to_string(arr.get_index(i)) for i in range(arr.length)
+            )
 
         def subarray_fn(*args):
             begin = to_integer(args[0]) if len(args) > 0 else 0
